@@ -6,7 +6,7 @@ import ast
 
 from ..cfg import build_cfg, calls_in, node_calls
 from ..core import Ctx, property_info, rule, share
-from ..model import AnalysisError, FuncInfo, walk_no_nested
+from ..model import AnalysisError, FuncInfo, ordered_stmts, walk_no_nested
 from ..q import A, L, X, family, leaf_conditions, reach_env, reach_table, cmp_atom, leaves_at, node_containing, alternatives, call_name_of, control_deps, dep_texts, entry_conditions, expand, expand_at, flows, func_text, path_conditions, tests_like, is_self_attr, kwarg, stores, unparse
 from .c10 import flag_liveness_and_overrides
 from .c15 import shape_validation
@@ -179,7 +179,9 @@ def key_agreement(ctx: Ctx) -> None:
     ctx.ob("find_var returns a field only for key == var.local_name, or key == var.wrapper with var.local_name nested inside a dict, and only when list-ness of the value agrees with the field",
            direct >= 1 and nested >= 1 and not bad, at=fv, construct="decoder keys", msg=f"decoder matches other attributes than the encoder emits, or ignores arity: {bad[:1]}")
     bd = ctx.repo.func(f"{PAR}:DictDecoder.bind_dataclass")
-    unwrap = [st for st, tgt, v in stores(bd.node) if isinstance(v, ast.Subscript) and L(bd, v.slice) == "_.local_name"]
+    # the statement that reads value[var.local_name] (stored to a local, or passed straight on as an argument)
+    unwrap = [st for st in ordered_stmts(bd.node) if not isinstance(st, (ast.If, ast.For, ast.While, ast.Try, ast.With, ast.FunctionDef))
+              and any(isinstance(v, ast.Subscript) and isinstance(v.ctx, ast.Load) and L(bd, v.slice) == "_.local_name" for v in walk_no_nested(st))]
     ok = len(unwrap) == 1 and {"_.wrapper"} <= dep_texts(bd, unwrap[0], True) and bool({"_==_.wrapper", "_.wrapper==_"} & dep_texts(bd, unwrap[0], True))
     ctx.ob("bind_dataclass unwraps value[var.local_name] exactly for wrapped fields matched by their wrapper key", ok, at=bd, construct="decoder unwrap", msg="wrapped values bound with their wrapper dict")
     fvc = [c for c in calls_in(bd.node) if call_name_of(c) == "find_var"]
@@ -200,7 +202,7 @@ def generic_key_sets(ctx: Ctx) -> None:
         ctx.ob(f"ClassType.{name} is computed from the fields of self.{attr} (no literal key list)", ok, at=m or ct.methods["score_object"], construct=name, msg="a literal key list can drift from the class the encoder walks")
     bv = ctx.repo.func(f"{PAR}:DictDecoder.bind_value")
     for keys_attr, target in (("any_keys", "bind_dataclass"), ("derived_keys", "bind_derived_value")):
-        sites = [n for n in build_cfg(bv.node).returns() if isinstance(n.ast.value, ast.Call) and call_name_of(n.ast.value) == target]
+        sites = [n for n in build_cfg(bv.node).stmts() if n.kind == "stmt" and any(call_name_of(c) == target and isinstance(c.func, ast.Attribute) and unparse(c.func.value) == "self" for c in node_calls(n))]
         ok = bool(sites) and all(any(pol and t.endswith(f"self.context.class_type.{keys_attr}") and ".keys()" in t and "==" in t for t, pol, _ in control_deps(bv, n)) for n in sites)
         ctx.ob(f"bind_value sends a dict to {target} exactly when its key set equals class_type.{keys_attr}", ok, at=bv, construct=f"generic detection {keys_attr}", msg="generic detection changed")
     bd = ctx.repo.func(f"{PAR}:DictDecoder.bind_dataclass")
@@ -230,6 +232,15 @@ def exact_type_choice_lookup(ctx: Ctx) -> None:
            msg="a bool value matches an int choice declared first: JSON true decodes as the string 'true' with a warning instead of True")
     g = build_cfg(fp.node)
     rets = [r for r in g.returns() if r.ast.value is not None and not (isinstance(r.ast.value, ast.Constant) and r.ast.value.value is None)]
+    # `for choice in ...: if <accept>: break / else: choice = None / return choice`: the decision to return a choice is taken at the break
+    sites_ = []
+    for r in rets:
+        v_ = r.ast.value
+        loops_ = [n for n in g.nodes if n.kind == "for" and isinstance(n.ast.target, ast.Name) and isinstance(v_, ast.Name) and n.ast.target.id == v_.id
+                  and not any(x is r.ast for x in ast.walk(n.ast))]
+        brk = [n for lp in loops_ for n in g.stmts() if isinstance(n.ast, ast.Break) and any(x is n.ast for x in ast.walk(lp.ast))]
+        sites_ += brk if brk else [r]
+    rets = sites_
     def _membership(fi, t):
         """(left alternatives, comparator text) of an `x in y` test with temporaries expanded at the test."""
         e = t.ast
